@@ -415,7 +415,7 @@ def norm_ty(t):
 
 
 class Program:
-    def __init__(self, facts_dir):
+    def __init__(self, facts_dir, apply_renames=True):
         self.dir = facts_dir
         self.fns = {}
         self.adts = {}
@@ -423,9 +423,19 @@ class Program:
         self.traits = {}
         self.statics = {}
         self.crates = {}
+        loaded = []
         for f in sorted(glob.glob(os.path.join(facts_dir, "*.json"))):
             with open(f) as fh:
-                d = json.load(fh)
+                loaded.append(json.load(fh))
+        # a function that was merely renamed keeps its reviewed name (tables/fn_fingerprints.json)
+        self.renamed = detect_renames([fd for d in loaded for fd in d["fns"]]) if apply_renames else {}
+        if self.renamed:
+            for d in loaded:
+                for fd in d["fns"]:
+                    if fd["id"] in self.renamed and fd.get("name"):
+                        fd["name"] = short(self.renamed[fd["id"]]) if False else self.renamed[fd["id"]].rsplit("::", 1)[-1]
+            loaded = [dict(d, fns=_rename_strings(d["fns"], self.renamed), impls=_rename_strings(d["impls"], self.renamed)) for d in loaded]
+        for d in loaded:
             crate = d["crate"]
             self.crates[crate] = self.crates.get(crate, 0) + d["nfn"]
             for fd in d["fns"]:
@@ -768,3 +778,62 @@ def inlined(prog, fn, max_rounds=4, keep=()):
     view.inlined_from = inl
     view.original = fn
     return view
+
+
+# ---- renamed functions ------------------------------------------------------------------------------------------------
+FINGERPRINTS = os.path.join(os.path.dirname(os.path.dirname(os.path.abspath(__file__))), "tables", "fn_fingerprints.json")
+
+
+def _owner_of_id(fid):
+    depth = 0
+    for i in range(len(fid) - 1, 0, -1):
+        ch = fid[i]
+        if ch == ">":
+            depth += 1
+        elif ch == "<":
+            depth -= 1
+        elif ch == ":" and fid[i - 1] == ":" and depth == 0:
+            return fid[:i - 1]
+    return ""
+
+
+def fingerprint(f):
+    d = f.d if hasattr(f, "d") else f
+    return {"owner": _owner_of_id(d["id"]), "trait": d.get("impl_trait"), "file": d["file"], "sig": list(d["locals"][:d["nargs"] + 1]), "nargs": d["nargs"]}
+
+
+def detect_renames(fn_dicts):
+    """{new id: reviewed id} for functions whose reviewed name vanished while a function of the same owner, file and signature
+    appeared under another name (1:1 only; ambiguous cases are left alone)"""
+    if not os.path.exists(FINGERPRINTS):
+        return {}
+    with open(FINGERPRINTS) as fh:
+        old = json.load(fh)["fns"]
+    cur = {d["id"]: d for d in fn_dicts if d["kind"] not in ("Closure", "SyntheticCoroutineBody")}
+    vanished = [i for i in old if i not in cur]
+    appeared = [i for i in cur if i not in old]
+    if not vanished or not appeared:
+        return {}
+    pairs = {}
+    for a in appeared:
+        fa = fingerprint(cur[a])
+        c = [v for v in vanished if old[v]["owner"] == fa["owner"] and old[v].get("trait") == fa["trait"] and old[v]["sig"] == fa["sig"] and old[v]["file"] == fa["file"]]
+        if len(c) == 1:
+            pairs.setdefault(c[0], []).append(a)
+    return {news[0]: v for v, news in pairs.items() if len(news) == 1}
+
+
+def _rename_strings(x, table):
+    """rewrite every string equal to a renamed id (or a closure path below it) inside a facts structure"""
+    if isinstance(x, str):
+        if x in table:
+            return table[x]
+        for new, oldid in table.items():
+            if x.startswith(new + "::{closure"):
+                return oldid + x[len(new):]
+        return x
+    if isinstance(x, list):
+        return [_rename_strings(y, table) for y in x]
+    if isinstance(x, dict):
+        return {k: _rename_strings(v, table) for k, v in x.items()}
+    return x
